@@ -269,7 +269,9 @@ def gen_cases(ctx):
         pool = al2 if w == 2 else al3
         A = ("d", w, rng.sample(pool, rng.choice([1, 1, 2, 3])))
         B = ("s", rng.choice(pool)) if rng.random() < 0.7 else ("d", w, rng.sample(pool, rng.choice([1, 2])))
-        op = rng.choice(vs.SEQ_DS_OPS)
+        op = rng.choice(vs.SEQ_DS_OPS + ["union", "union"])
+        if op == "union" and rng.random() < 0.5:
+            B = ("s", rng.choice(A[2]))          # another variable with the bounds of a member (the set compares by value)
         cases.append(("d", "seq_" + op, A, None if op in vs.DS_UN else B, ()))
     for _ in range(ctx.pick(350, 8000)):
         w = rng.choice([2, 3, 3, 4])
